@@ -56,6 +56,24 @@ theorem filterItem_spec (pred : EvalM Value) (v : Value) (s : Scope) (r : Value)
     simp only [itemScope] at h
     exact bracket_ok _ _ _ _ (htest _ h)
 
+/-- `eval_for_item`: the filter expression evaluated in the item's scope, the scope restored. -/
+theorem itemScoped_spec (pred : EvalM Value) (v : Value) (s : Scope) (r : Value)
+    (h : pred (itemScope s v) = .ok (r, itemScope s v)) : itemScoped pred v s = .ok (r, s) := by
+  unfold itemScoped
+  cases v with
+  | ctx own =>
+    simp only [itemScope] at h
+    by_cases hi : Ctx.contains own "item" = true
+    · simp only [hi, if_true] at h ⊢
+      exact bracket_ok _ _ _ _ h
+    · simp only [hi] at h ⊢
+      apply bracket_ok
+      apply bracket_ok
+      exact h
+  | _ =>
+    simp only [itemScope] at h
+    exact bracket_ok _ _ _ _ h
+
 /-- The loop of `build_filter` keeps, in order, exactly the items for which the predicate —
 evaluated in the item's scope — is `true` (any other value, null included, drops the item). -/
 theorem filterLoop_spec (pred : EvalM Value) (pv : Value → Value) (s : Scope) :
@@ -75,35 +93,179 @@ def isFalse (v : Value) : Bool :=
   | .bool false => true
   | _ => false
 
-/-- `some`: the accumulator becomes true at the first body value `true`; other values (false,
-null, anything else) leave it. -/
+/-- `Value::Boolean(_)` -/
+def isBoolV (v : Value) : Bool :=
+  match v with
+  | .bool _ => true
+  | _ => false
+
+/-- `Value::Null(_)` -/
+def isNullV (v : Value) : Bool :=
+  match v with
+  | .null => true
+  | _ => false
+
+/-- `some`: `result` becomes true at the first body value `true`; `unknown` is set by every body
+value that is not a boolean (null included). -/
 theorem quantLoop_some (sat : EvalM Value) (bv : Ctx → Value) (s : Scope) :
-    ∀ (cs : List Ctx) (acc : Bool), (∀ c ∈ cs, sat (s ++ [c]) = .ok (bv c, s ++ [c])) →
-      quantLoop true sat cs acc s = .ok (acc || cs.any (fun c => isTrue (bv c)), s)
+    ∀ (cs : List Ctx) (acc : Bool × Bool), (∀ c ∈ cs, sat (s ++ [c]) = .ok (bv c, s ++ [c])) →
+      quantLoop true sat cs acc s =
+        .ok ((acc.1 || cs.any (fun c => isTrue (bv c)), acc.2 || cs.any (fun c => !isBoolV (bv c))), s)
   | [], acc, _ => by simp [quantLoop, pure_def]
   | c :: cs, acc, h => by
     have h1 := bracket_ok c sat s (bv c) (h c List.mem_cons_self)
     simp only [quantLoop, bind_def, h1]
     rw [quantLoop_some sat bv s cs _ (fun d hd => h d (List.mem_cons_of_mem _ hd))]
     simp only [List.any_cons]
+    obtain ⟨a1, a2⟩ := acc
     cases hb : bv c with
-    | bool b => cases b <;> cases acc <;> simp [Value.isTrue]
-    | _ => simp [Value.isTrue]
+    | bool b => cases b <;> cases a1 <;> simp [Value.isTrue, isBoolV]
+    | _ => simp [Value.isTrue, isBoolV]
 
-/-- `every`: the accumulator becomes false at the first body value `false`; other values (true,
-**null**, anything else) leave it. -/
+/-- `every`: `result` becomes false at the first body value `false`; `unknown` is set by every
+body value that is not a boolean (null included). -/
 theorem quantLoop_every (sat : EvalM Value) (bv : Ctx → Value) (s : Scope) :
-    ∀ (cs : List Ctx) (acc : Bool), (∀ c ∈ cs, sat (s ++ [c]) = .ok (bv c, s ++ [c])) →
-      quantLoop false sat cs acc s = .ok (acc && cs.all (fun c => !isFalse (bv c)), s)
+    ∀ (cs : List Ctx) (acc : Bool × Bool), (∀ c ∈ cs, sat (s ++ [c]) = .ok (bv c, s ++ [c])) →
+      quantLoop false sat cs acc s =
+        .ok ((acc.1 && cs.all (fun c => !isFalse (bv c)), acc.2 || cs.any (fun c => !isBoolV (bv c))), s)
   | [], acc, _ => by simp [quantLoop, pure_def]
   | c :: cs, acc, h => by
     have h1 := bracket_ok c sat s (bv c) (h c List.mem_cons_self)
     simp only [quantLoop, bind_def, h1]
     rw [quantLoop_every sat bv s cs _ (fun d hd => h d (List.mem_cons_of_mem _ hd))]
-    simp only [List.all_cons]
+    simp only [List.all_cons, List.any_cons]
+    obtain ⟨a1, a2⟩ := acc
     cases hb : bv c with
-    | bool b => cases b <;> cases acc <;> simp [Eval.isFalse]
-    | _ => simp [Eval.isFalse]
+    | bool b => cases b <;> cases a1 <;> simp [Eval.isFalse, isBoolV]
+    | _ => simp [Eval.isFalse, isBoolV]
+
+/-- The ternary disjunction of a list of body values (DMN 1.3 Table 62: `false or b₁ or b₂ …`):
+true if one is `true`, false if all are `false`, null otherwise. -/
+def someV (vals : List Value) : Value :=
+  if vals.any isTrue then .bool true else if vals.all isFalse then .bool false else .null
+
+/-- The ternary conjunction (`true and b₁ and b₂ …`): false if one is `false`, true if all are
+`true`, null otherwise. -/
+def everyV (vals : List Value) : Value :=
+  if vals.any isFalse then .bool false else if vals.all isTrue then .bool true else .null
+
+theorem or3_fold_true (vals : List Value) : vals.foldl or3 (.bool true) = .bool true := by
+  induction vals with
+  | nil => rfl
+  | cons v vs ih => cases v <;> simp only [List.foldl_cons, or3, Bool.true_or, if_true, ih]
+
+theorem and3_fold_false (vals : List Value) : vals.foldl and3 (.bool false) = .bool false := by
+  induction vals with
+  | nil => rfl
+  | cons v vs ih => cases v <;> simp [List.foldl_cons, and3, ih]
+
+theorem or3_fold_null (vals : List Value) :
+    vals.foldl or3 .null = if vals.any isTrue then .bool true else .null := by
+  induction vals with
+  | nil => rfl
+  | cons v vs ih =>
+    cases v with
+    | bool b => cases b <;> simp [List.foldl_cons, or3, ih, or3_fold_true, Value.isTrue]
+    | _ => simp [List.foldl_cons, or3, ih, Value.isTrue]
+
+theorem and3_fold_null (vals : List Value) :
+    vals.foldl and3 .null = if vals.any isFalse then .bool false else .null := by
+  induction vals with
+  | nil => rfl
+  | cons v vs ih =>
+    cases v with
+    | bool b => cases b <;> simp [List.foldl_cons, and3, ih, and3_fold_false, Eval.isFalse]
+    | _ => simp [List.foldl_cons, and3, ih, Eval.isFalse]
+
+/-- `someV` is the left fold of the three-valued `or` from `false`. -/
+theorem someV_eq_fold (vals : List Value) : someV vals = vals.foldl or3 (.bool false) := by
+  induction vals with
+  | nil => rfl
+  | cons v vs ih =>
+    cases v with
+    | bool b =>
+      cases b
+      · simpa [someV, List.foldl_cons, or3, Value.isTrue, Eval.isFalse] using ih
+      · simp [someV, List.foldl_cons, or3, Value.isTrue, or3_fold_true]
+    | _ => simp [someV, List.foldl_cons, or3, Value.isTrue, Eval.isFalse, or3_fold_null]
+
+/-- `everyV` is the left fold of the three-valued `and` from `true`. -/
+theorem everyV_eq_fold (vals : List Value) : everyV vals = vals.foldl and3 (.bool true) := by
+  induction vals with
+  | nil => rfl
+  | cons v vs ih =>
+    cases v with
+    | bool b =>
+      cases b
+      · simp [everyV, List.foldl_cons, and3, Eval.isFalse, and3_fold_false]
+      · simpa [everyV, List.foldl_cons, and3, Value.isTrue, Eval.isFalse] using ih
+    | _ => simp [everyV, List.foldl_cons, and3, Value.isTrue, Eval.isFalse, and3_fold_null]
+
+theorem isTrue_isBoolV (v : Value) (h : isTrue v = true) : isBoolV v = true := by
+  cases v <;> simp_all [Value.isTrue, isBoolV]
+
+/-- What `SomeExpressionEvaluator::evaluate` returns is the ternary disjunction of the body values. -/
+theorem quantResult_some (vals : List Value) :
+    quantResult true (vals.any isTrue, vals.any (fun v => !isBoolV v)) = someV vals := by
+  unfold quantResult someV
+  by_cases h1 : vals.any isTrue = true
+  · simp [h1]
+  · have h1' : vals.any isTrue = false := by simpa using h1
+    by_cases h2 : vals.any (fun v => !isBoolV v) = true
+    · have : vals.all isFalse = false := by
+        obtain ⟨v, hv, hnb⟩ := List.any_eq_true.mp h2
+        apply Bool.eq_false_iff.mpr
+        intro hall
+        have := List.all_eq_true.mp hall v hv
+        cases v <;> simp_all [Eval.isFalse, isBoolV]
+      simp [h1', h2, this]
+    · have h2' : vals.any (fun v => !isBoolV v) = false := by simpa using h2
+      have : vals.all isFalse = true := by
+        apply List.all_eq_true.mpr
+        intro v hv
+        have hb := List.any_eq_false.mp h2' v hv
+        have ht := List.any_eq_false.mp h1' v hv
+        cases v with
+        | bool b => cases b <;> simp_all [Eval.isFalse, Value.isTrue]
+        | _ => simp_all [isBoolV]
+      simp [h1', h2', this]
+
+/-- What `EveryExpressionEvaluator::evaluate` returns is the ternary conjunction of the body values. -/
+theorem quantResult_every (vals : List Value) :
+    quantResult false (vals.all (fun v => !isFalse v), vals.any (fun v => !isBoolV v)) = everyV vals := by
+  unfold quantResult everyV
+  by_cases h1 : vals.any isFalse = true
+  · have : vals.all (fun v => !isFalse v) = false := by
+      obtain ⟨v, hv, hf⟩ := List.any_eq_true.mp h1
+      apply Bool.eq_false_iff.mpr
+      intro hall
+      have := List.all_eq_true.mp hall v hv
+      simp_all
+    simp [h1, this]
+  · have h1' : vals.any isFalse = false := by simpa using h1
+    have hall : vals.all (fun v => !isFalse v) = true := by
+      apply List.all_eq_true.mpr
+      intro v hv
+      have := List.any_eq_false.mp h1' v hv
+      simpa using this
+    by_cases h2 : vals.any (fun v => !isBoolV v) = true
+    · have : vals.all isTrue = false := by
+        obtain ⟨v, hv, hnb⟩ := List.any_eq_true.mp h2
+        apply Bool.eq_false_iff.mpr
+        intro ha
+        have := List.all_eq_true.mp ha v hv
+        cases v <;> simp_all [Value.isTrue, isBoolV]
+      simp [h1', hall, h2, this]
+    · have h2' : vals.any (fun v => !isBoolV v) = false := by simpa using h2
+      have : vals.all isTrue = true := by
+        apply List.all_eq_true.mpr
+        intro v hv
+        have hb := List.any_eq_false.mp h2' v hv
+        have hf := List.any_eq_false.mp h1' v hv
+        cases v with
+        | bool b => cases b <;> simp_all [Eval.isFalse, Value.isTrue]
+        | _ => simp_all [isBoolV]
+      simp [h1', hall, h2', this]
 
 /-- A domain of `some` / `every`: the variable, the domain expression, its value. -/
 abbrev QDom := String × Ast × Value
@@ -134,25 +296,71 @@ theorem quantStates_map_snd (pos : Nat) (doms : List QDom) :
   | nil => rfl
   | cons d ds ih => simp only [quantStates, List.map_cons, ih]
 
+/-- What `build_some` / `build_every` make of the evaluated domains: the first domain that is
+null ends the evaluation with null, the first that is the empty list with the empty product. -/
+def quantDomains : Nat → List QDom → IterDomains
+  | _, [] => .states []
+  | pos, d :: ds =>
+    if isNullV d.2.2 then .notIterable
+    else if isEmptyList d.2.2 then .empty
+    else (quantDomains (pos + 1) ds).cons (pos, Iter.mkList d.1 (listOf d.2.2))
+
 /-- All domains are evaluated in the scope of the quantified expression itself (a later domain
-does not see an earlier variable); one empty list ends the evaluation with `none`. -/
+does not see an earlier variable). -/
 theorem evalQuantified_spec (env : Env) (s : Scope) :
     ∀ (doms : List QDom) (pos : Nat), (∀ d ∈ doms, evalStep env d.2.1 s = .ok (d.2.2, s)) →
-      evalQuantified env (quantItems doms) pos s =
-        .ok (if doms.any (fun d => isEmptyList d.2.2) then none else some (quantStates pos doms), s)
+      evalQuantified env (quantItems doms) pos s = .ok (quantDomains pos doms, s)
   | [], pos, _ => rfl
   | d :: ds, pos, h => by
     obtain ⟨n, e, v⟩ := d
     have h1 : evalStep env e s = .ok (v, s) := h (n, e, v) List.mem_cons_self
     have h2 := evalQuantified_spec env s ds (pos + 1) (fun x hx => h x (List.mem_cons_of_mem _ hx))
     simp only [quantItems, List.map_cons] at h2 ⊢
-    simp only [evalQuantified, bind_def, h1, List.any_cons]
+    simp only [evalQuantified, bind_def, h1, quantDomains]
     split
-    · simp [isEmptyList, pure_def]
-    · rename_i hne
+    · simp [isNullV, pure_def]
+    · simp [isNullV, isEmptyList, pure_def]
+    · rename_i hnn hne
       have he : isEmptyList v = false := isEmptyList_false v (fun hv => hne hv)
-      simp only [bind_def, h2, he, Bool.false_or, pure_def]
-      cases List.any ds (fun d => isEmptyList d.2.2) <;> simp [quantStates]
+      have hn : isNullV v = false := by
+        cases v <;> first | rfl | exact absurd rfl hnn
+      simp only [bind_def, h2, he, hn, pure_def]
+      rfl
+
+/-- No domain is null or the empty list: the states go to the iteration engine in declaration order. -/
+theorem quantDomains_states (doms : List QDom) (pos : Nat)
+    (h : doms.any (fun d => isNullV d.2.2 || isEmptyList d.2.2) = false) :
+    quantDomains pos doms = .states (quantStates pos doms) := by
+  induction doms generalizing pos with
+  | nil => rfl
+  | cons d ds ih =>
+    simp only [List.any_cons, Bool.or_eq_false_iff] at h
+    simp only [quantDomains, h.1.1, h.1.2, Bool.false_eq_true, if_false, ih (pos + 1) h.2, IterDomains.cons,
+      quantStates]
+
+/-- The first domain that is null or empty (`pre` has neither) decides: null / the empty product. -/
+theorem quantDomains_first (pre : List QDom) (d : QDom) (post : List QDom) (pos : Nat)
+    (h : pre.any (fun d => isNullV d.2.2 || isEmptyList d.2.2) = false) :
+    (isNullV d.2.2 = true → quantDomains pos (pre ++ d :: post) = .notIterable) ∧
+    (isEmptyList d.2.2 = true → quantDomains pos (pre ++ d :: post) = .empty) := by
+  induction pre generalizing pos with
+  | nil =>
+    constructor
+    · intro hn; simp [quantDomains, hn]
+    · intro he
+      have hn : isNullV d.2.2 = false := by
+        cases hv : d.2.2 <;> simp_all [isNullV, isEmptyList]
+      simp [quantDomains, hn, he]
+  | cons p ps ih =>
+    simp only [List.any_cons, Bool.or_eq_false_iff] at h
+    have ih' := ih (pos + 1) h.2
+    constructor
+    · intro hn
+      simp only [List.cons_append, quantDomains, h.1.1, h.1.2, Bool.false_eq_true, if_false, ih'.1 hn,
+        IterDomains.cons]
+    · intro he
+      simp only [List.cons_append, quantDomains, h.1.1, h.1.2, Bool.false_eq_true, if_false, ih'.2 he,
+        IterDomains.cons]
 
 /-! ## for -/
 
@@ -214,7 +422,8 @@ def ForDom.Evaluates (env : Env) (s : Scope) : ForDom → Prop
 def forDomains : Nat → List ForDom → IterDomains
   | _, [] => .states []
   | pos, .single n _ v :: ds =>
-    if isEmptyList v then .empty else (forDomains (pos + 1) ds).cons (pos, Iter.mkList n (listOf v))
+    if isNullV v then .notIterable
+    else if isEmptyList v then .empty else (forDomains (pos + 1) ds).cons (pos, Iter.mkList n (listOf v))
   | pos, .range n _ _ a b :: ds =>
     match rangeState n a b with
     | none => .notIterable
@@ -229,10 +438,13 @@ theorem evalIteration_spec (env : Env) (s : Scope) :
     have h2 := evalIteration_spec env s ds (pos + 1) (fun x hx => h x (List.mem_cons_of_mem _ hx))
     simp only [List.map_cons, ForDom.item, evalIteration, bind_def, h1, forDomains]
     split
-    · simp [isEmptyList, pure_def]
-    · rename_i hne
+    · simp [isNullV, pure_def]
+    · simp [isNullV, isEmptyList, pure_def]
+    · rename_i hnn hne
       have he : isEmptyList v = false := isEmptyList_false v (fun hv => hne hv)
-      simp only [bind_def, h2, he, pure_def]
+      have hn : isNullV v = false := by
+        cases v <;> first | rfl | exact absurd rfl hnn
+      simp only [bind_def, h2, he, hn, pure_def]
       rfl
   | .range n lo hi a b :: ds, pos, h => by
     have h1 : evalStep env lo s = .ok (a, s) ∧ evalStep env hi s = .ok (b, s) := h _ List.mem_cons_self
@@ -244,7 +456,7 @@ theorem evalIteration_spec (env : Env) (s : Scope) :
 
 /-- the state of a domain, when it has one -/
 def ForDom.state? : ForDom → Option Iter.State
-  | .single n _ v => if isEmptyList v then none else some (Iter.mkList n (listOf v))
+  | .single n _ v => if isNullV v || isEmptyList v then none else some (Iter.mkList n (listOf v))
   | .range n _ _ a b => rangeState n a b
 
 def tagFrom : Nat → List Iter.State → List (Nat × Iter.State)
@@ -256,7 +468,16 @@ theorem tagFrom_map_snd (pos : Nat) (sts : List Iter.State) : (tagFrom pos sts).
   | nil => rfl
   | cons st sts ih => simp only [tagFrom, List.map_cons, ih]
 
-/-- When every domain has a state (no empty list, integer range ends) the states are handed to
+theorem single_state (n : String) (v : Value) (st : Iter.State)
+    (h : (if (isNullV v || isEmptyList v) = true then none else some (Iter.mkList n (listOf v))) = some st) :
+    isNullV v = false ∧ isEmptyList v = false ∧ Iter.mkList n (listOf v) = st := by
+  by_cases hc : (isNullV v || isEmptyList v) = true
+  · rw [if_pos hc] at h; cases h
+  · rw [if_neg hc] at h
+    simp only [Bool.or_eq_true, not_or, Bool.not_eq_true] at hc
+    exact ⟨hc.1, hc.2, Option.some.inj h⟩
+
+/-- When every domain has a state (no null, no empty list, integer range ends) the states are handed to
 the iteration engine in declaration order. -/
 theorem forDomains_states (doms : List ForDom) (sts : List Iter.State) (pos : Nat)
     (h : doms.map ForDom.state? = sts.map some) : forDomains pos doms = .states (tagFrom pos sts) := by
@@ -274,11 +495,8 @@ theorem forDomains_states (doms : List ForDom) (sts : List Iter.State) (pos : Na
       cases d with
       | single n e v =>
         simp only [ForDom.state?] at h
-        by_cases he : isEmptyList v = true
-        · simp [he] at h
-        · simp only [he] at h
-          simp only [Bool.false_eq_true, if_false, Option.some.injEq] at h
-          simp only [forDomains, he, Bool.false_eq_true, if_false, ih', IterDomains.cons, tagFrom, h.1]
+        obtain ⟨hn, he, hst⟩ := single_state n v st h.1
+        simp only [forDomains, hn, he, Bool.false_eq_true, if_false, ih', IterDomains.cons, tagFrom, hst]
       | range n lo hi a b =>
         simp only [ForDom.state?] at h
         simp only [forDomains, h.1, ih', IterDomains.cons, tagFrom]
@@ -289,7 +507,7 @@ theorem forDomains_empty (pre : List ForDom) (sts : List Iter.State) (n : String
     (post : List ForDom) (pos : Nat) (h : pre.map ForDom.state? = sts.map some) :
     forDomains pos (pre ++ .single n e (.list []) :: post) = .empty := by
   induction pre generalizing sts pos with
-  | nil => simp [forDomains, isEmptyList]
+  | nil => simp [forDomains, isEmptyList, isNullV]
   | cons d ds ih =>
     cases sts with
     | nil => simp at h
@@ -299,9 +517,29 @@ theorem forDomains_empty (pre : List ForDom) (sts : List Iter.State) (n : String
       cases d with
       | single n' e' v =>
         simp only [ForDom.state?] at h
-        by_cases he : isEmptyList v = true
-        · simp [he] at h
-        · simp only [List.cons_append, forDomains, he, Bool.false_eq_true, if_false, ih', IterDomains.cons]
+        obtain ⟨hn, he, _⟩ := single_state n' v st h.1
+        simp only [List.cons_append, forDomains, hn, he, Bool.false_eq_true, if_false, ih', IterDomains.cons]
+      | range n' lo hi a b =>
+        simp only [ForDom.state?] at h
+        simp only [List.cons_append, forDomains, h.1, ih', IterDomains.cons]
+
+/-- A null domain that is reached (every domain before it has a state) makes the result null. -/
+theorem forDomains_null (pre : List ForDom) (sts : List Iter.State) (n : String) (e : Ast)
+    (post : List ForDom) (pos : Nat) (h : pre.map ForDom.state? = sts.map some) :
+    forDomains pos (pre ++ .single n e .null :: post) = .notIterable := by
+  induction pre generalizing sts pos with
+  | nil => simp [forDomains, isNullV]
+  | cons d ds ih =>
+    cases sts with
+    | nil => simp at h
+    | cons st sts =>
+      simp only [List.map_cons, List.cons.injEq] at h
+      have ih' := ih sts (pos + 1) h.2
+      cases d with
+      | single n' e' v =>
+        simp only [ForDom.state?] at h
+        obtain ⟨hn, he, _⟩ := single_state n' v st h.1
+        simp only [List.cons_append, forDomains, hn, he, Bool.false_eq_true, if_false, ih', IterDomains.cons]
       | range n' lo hi a b =>
         simp only [ForDom.state?] at h
         simp only [List.cons_append, forDomains, h.1, ih', IterDomains.cons]
